@@ -9,6 +9,8 @@ pub struct Headers<'a> {
     chunked: bool,
     connection_close: bool,
     print_date: bool,
+    /// a Content-Length value was not `1*DIGIT`, out of range, or conflicted with an earlier one
+    invalid_content_length: bool,
 }
 
 static HEADERS_VEC_INIT_CAPACITY: usize = 16; // rough guess, could be benchmarked
@@ -41,6 +43,7 @@ impl<'a> Headers<'a> {
             chunked: false,
             connection_close: false,
             print_date: true,
+            invalid_content_length: false,
         }
     }
 
@@ -51,6 +54,7 @@ impl<'a> Headers<'a> {
             chunked: false,
             connection_close: false,
             print_date: false,
+            invalid_content_length: false,
         }
     }
 
@@ -76,9 +80,12 @@ impl<'a> Headers<'a> {
 
         // TODO: only trim OWS (SP/HTAB), trim_ascii* is too permissive
         if name.eq_ignore_ascii_case(Self::CONTENT_LENGTH) {
-            if let Ok(s) = std::str::from_utf8(&value) {
-                self.content_length = s.trim_ascii().parse().ok();
+            let parsed = parse_content_length(&value);
+            if parsed.is_none() || (self.content_length.is_some() && self.content_length != parsed)
+            {
+                self.invalid_content_length = true;
             }
+            self.content_length = parsed;
             return;
         }
 
@@ -133,6 +140,7 @@ impl<'a> Headers<'a> {
     pub fn remove(&mut self, name: &str) {
         if name.eq_ignore_ascii_case(Self::CONTENT_LENGTH) {
             self.content_length = None;
+            self.invalid_content_length = false;
         } else if name.eq_ignore_ascii_case(Self::TRANSFER_ENCODING) {
             self.chunked = false;
         } else if name.eq_ignore_ascii_case(Self::CONNECTION) {
@@ -153,6 +161,13 @@ impl<'a> Headers<'a> {
 
     pub fn set_content_length(&mut self, len: Option<u64>) {
         self.content_length = len;
+        self.invalid_content_length = false;
+    }
+
+    /// True if the fields added so far cannot frame a message: a Content-Length that is not a
+    /// plain decimal number, or two different Content-Length values (RFC 9112 section 6.3).
+    pub fn has_invalid_framing(&self) -> bool {
+        self.invalid_content_length
     }
 
     pub fn set_transfer_encoding_chunked(&mut self) {
@@ -216,6 +231,15 @@ impl<'a> Headers<'a> {
             .map(|val| val.eq_ignore_ascii_case(b"100-continue"))
             .unwrap_or(false)
     }
+}
+
+/// `1*DIGIT` with optional surrounding whitespace, in range of u64 (no sign, no list).
+fn parse_content_length(value: &[u8]) -> Option<u64> {
+    let digits = value.trim_ascii();
+    if digits.is_empty() || !digits.iter().all(u8::is_ascii_digit) {
+        return None;
+    }
+    std::str::from_utf8(digits).ok()?.parse().ok()
 }
 
 impl<'a> IntoIterator for &'a Headers<'a> {
